@@ -139,7 +139,12 @@ func WithVars(vars map[string]any) QueryOption {
 	}
 }
 
-func New(data Map, query string, options ...QueryOption) (*Query, error) {
+func New(data Map, query string, options ...QueryOption) (_ *Query, err error) {
+	defer func() {
+		if r := recover(); r != nil {
+			err = recoveredError(r)
+		}
+	}()
 	q := &Query{
 		offsetDefinition:    -1,
 		limitDefinition:     -1,
@@ -1756,7 +1761,7 @@ func ExecOrderBy(query *Query, current []any) ([]any, error) {
 func (query *Query) exec() (result any, err error) {
 	defer func() {
 		if r := recover(); r != nil {
-			err = r.(error)
+			result, err = nil, recoveredError(r)
 		}
 	}()
 	if query.dual {
@@ -1851,6 +1856,11 @@ func (query *Query) execAndPostProcess() (result any, err error) {
 }
 
 func (query *Query) Exec() (result []any, err error) {
+	defer func() {
+		if r := recover(); r != nil {
+			result, err = nil, recoveredError(r)
+		}
+	}()
 	rs, err := query.execAndPostProcess()
 	if err != nil {
 		return nil, err
@@ -1859,6 +1869,14 @@ func (query *Query) Exec() (result []any, err error) {
 		return slice, nil
 	}
 	return []any{rs}, nil
+}
+
+// recoveredError turns the value of a recovered panic into an error.
+func recoveredError(r any) error {
+	if err, ok := r.(error); ok {
+		return err
+	}
+	return fmt.Errorf("%v", r)
 }
 
 func (query *Query) IsDual() bool {
